@@ -29,12 +29,16 @@ pub struct BodyCfg {
     pub nested_diff_switch: bool,
     /// allow ternaries whose condition is a compile-time constant (the dropped branch may hold the only mention of a register)
     pub const_ternary_cond: bool,
+    /// put difficulty labels on structured statements too
+    pub label_structured: bool,
+    /// known finding: the initial conditional jump of a labelled `while (..)` / `if (..)` loses its difficulty label
+    pub exclude_label_on_cond_region: bool,
 }
 
 impl BodyCfg {
     pub fn full() -> BodyCfg {
         BodyCfg { structured: true, raw_jumps: true, time_labels: true, diff: true, locals: true, calls: true, assigns: true, interrupts: false,
-                  max_stmts: 14, max_depth: 3, expr_depth: 3, exclude_reg_in_diff_switch: false, dynamic_counts: true, sentinel: true, time_decrease: false, nested_diff_switch: true, const_ternary_cond: true }
+                  max_stmts: 14, max_depth: 3, expr_depth: 3, exclude_reg_in_diff_switch: false, dynamic_counts: true, sentinel: true, time_decrease: false, nested_diff_switch: true, const_ternary_cond: true, label_structured: false, exclude_label_on_cond_region: false }
     }
 }
 
@@ -495,6 +499,8 @@ impl<'a, 'b> BodyGen<'a, 'b> {
 
     fn with_diff(&mut self, s: Stmt) -> SNode {
         if self.cfg.diff && self.tape.chance(1, 6) {
+            // known finding: a register mentioned only in a difficulty-switch case that the statement's label excludes
+            if !self.cfg.const_ternary_cond && stmt_has_reg_in_diff_switch(&s) { return s.into(); }
             let labels = ["0", "1", "01", "23", "012", "3", "*", "13", "*-0", "02"];
             SNode { diff: Some((*self.tape.pick(&labels)).to_string()), kind: s }
         } else { s.into() }
@@ -517,7 +523,16 @@ impl<'a, 'b> BodyGen<'a, 'b> {
                     let c = self.call(); out.push(c.into());
                 }
                 7 | 8 => {
-                    if self.cfg.structured { if let Some(ss) = self.structured_stmt(depth) { out.extend(ss); continue; } }
+                    if self.cfg.structured { if let Some(mut ss) = self.structured_stmt(depth) {
+                        if self.cfg.label_structured && self.cfg.diff && self.tape.chance(1, 8) {
+                            let excluded = self.cfg.exclude_label_on_cond_region && matches!(ss.last().map(|x| &x.kind), Some(Stmt::While { .. }) | Some(Stmt::If { .. }));
+                            if let (false, Some(last)) = (excluded, ss.last_mut()) {
+                                // nested labels inside a labelled structured statement have no agreed meaning (inner label replaces the outer mask
+                                // in the semantics pass, while skipping the outer statement skips everything): keep the body label-free
+                                strip_labels(last); last.diff = Some((*self.tape.pick(&["0", "12", "*", "3", "01"])).to_string()); }
+                        }
+                        out.extend(ss); continue;
+                    } }
                     let c = self.call(); out.push(c.into());
                 }
                 9 => {
@@ -562,6 +577,19 @@ impl<'a, 'b> BodyGen<'a, 'b> {
         if self.cfg.sentinel { b.push(Stmt::Call { opcode: OP_SENTINEL, name: Some("sentinel".into()), args: vec![], pseudos: vec![] }.into()); }
         b
     }
+}
+
+pub fn strip_labels(s: &mut SNode) {
+    fn strip_body(b: &mut Vec<SNode>) { for x in b.iter_mut() { x.diff = None; strip_labels(x); } }
+    match &mut s.kind {
+        Stmt::If { arms, els } => { for (_, _, b) in arms.iter_mut() { strip_body(b); } if let Some(e) = els { strip_body(e); } }
+        Stmt::While { body, .. } | Stmt::DoWhile { body, .. } | Stmt::Times { body, .. } | Stmt::Loop { body } | Stmt::Block(body) => strip_body(body),
+        _ => {}
+    }
+}
+
+pub fn contains_predec(e: &Expr) -> bool {
+    match e { Expr::PreDec(_) => true, Expr::Bin(_, a, b) => contains_predec(a) || contains_predec(b), Expr::Un(_, a) => contains_predec(a), _ => false }
 }
 
 pub fn contains_var(e: &Expr) -> bool {
